@@ -122,6 +122,41 @@ fn encode_case<A: Abc, P: Encode<A>>(rec: &mut Recorder, pli: &P, be: &str, rng:
     }
 }
 
+fn encode_short_dst_case<A: Abc, P: Encode<A>>(rec: &mut Recorder, pli: &P, be: &str, rng: &mut impl Rng, l: usize) {
+    if l < 2 { return; }
+    let bytes: Vec<u8> = random_ranks::<A>(rng, l, 0.0).iter().map(|&r| A::sym(r).as_ascii()).collect();
+    let keep = l - 1 - rng.gen_range(0..l.min(70) - 1);
+    // the destination is the head of a larger buffer: whatever is written past it lands in memory the call does not own
+    let mut big = vec![A::default_symbol(); l + 64];
+    let (r, log) = logged(|| pli.encode_into(&bytes, &mut big[..keep]).is_ok());
+    let kernel = format!("encode_short_dst_{}", be);
+    let params = json!({"l": l, "dst": keep, "abc": A::NAME});
+    let regions = [Region { name: "src", base: bytes.as_ptr() as usize, size: l }, Region { name: "dst", base: big.as_ptr() as usize, size: keep }];
+    let touched = big[keep..].iter().any(|s| *s != A::default_symbol());
+    match r {
+        Err(msg) if log.is_empty() && !touched => { let mut e = panic_event(&kernel, params, msg); e["ret"] = json!("refused"); emit(rec, "encode_short_dst_refused", e); }
+        Err(_) | Ok(_) => {
+            // it answered, or it panicked only after touching memory: every access is judged against the two slices
+            let mut e = summarise(&kernel, params, &regions, log);
+            if touched { e["ret"] = json!("wrote_past_the_destination_slice"); }
+            emit(rec, "encode_short_dst_answered", e);
+        }
+    }
+}
+
+/// DenseMatrix::from_rows with a row WIDER than the table: the documented panic is what keeps the copy inside the row
+fn from_rows_wide_case(rec: &mut Recorder, rng: &mut impl Rng) {
+    let nrows = rng.gen_range(1..4usize);
+    let wide_at = rng.gen_range(0..nrows);
+    let extra = [1usize, 5, 32, 37, 64][rng.gen_range(0..5)];
+    let rows: Vec<Vec<u32>> = (0..nrows).map(|i| vec![7u32; if i == wide_at { 32 + extra } else { 32 }]).collect();
+    let r = guarded(|| DenseMatrix::<u32, U32>::from_rows(rows.iter().map(|r| r.as_slice())).rows());
+    let params = json!({"rows": nrows, "wide_row": wide_at, "extra": extra});
+    let mut e = panic_event("from_rows_wide", params, match &r { Ok(_) => String::new(), Err(m) => m.clone() });
+    e["ret"] = json!(if r.is_err() { "refused" } else { "accepted_a_row_wider_than_the_table" });
+    emit(rec, "from_rows_wide", e);
+}
+
 fn stripe_case<A: Abc, P: Stripe<A, U32>>(rec: &mut Recorder, pli: &P, be: &str, rng: &mut impl Rng, l: usize, reuse: &mut StripedSequence<A, U32>) {
     let ranks = random_ranks::<A>(rng, l, 0.05);
     // an exactly-sized heap buffer, so that the slice is the whole allocation
@@ -256,6 +291,11 @@ pub fn record(rec: &mut Recorder, seed: u64, thorough: bool) {
         encode_case::<Protein, _>(rec, &Pipeline::<Protein, _>::avx2().unwrap(), "avx2", &mut r, l);
         encode_case::<Protein, _>(rec, &Pipeline::<Protein, _>::sse2().unwrap(), "sse2", &mut r, l);
         encode_case::<Dna, _>(rec, &Pipeline::<Dna, _>::dispatch(), "dispatch", &mut r, l);
+        encode_short_dst_case::<Dna, _>(rec, &Pipeline::<Dna, _>::avx2().unwrap(), "avx2", &mut r, l);
+        encode_short_dst_case::<Protein, _>(rec, &Pipeline::<Protein, _>::sse2().unwrap(), "sse2", &mut r, l);
+        encode_short_dst_case::<Dna, _>(rec, &Pipeline::<Dna, _>::dispatch(), "dispatch", &mut r, l);
+        encode_short_dst_case::<Dna, _>(rec, &Pipeline::<Dna, _>::generic(), "generic", &mut r, l);
+        from_rows_wide_case(rec, &mut r);
     }
     // ---- stripe: lengths below / at / above the first 32x32 tile, every residue mod 32
     let mut st_lens: Vec<usize> = (0..=40).chain(960..=1100).collect();
